@@ -399,12 +399,17 @@ def applyCastRule (r : CastRule) (rk : Kind) (v : Constant) : Res :=
        | _, _, _ => .error .stuck)
     | none, none => .error .stuck
 
+/-- `match inner_value { Constant::Enum(_, inner) => *inner, other => other }` -/
+def stripEnum : Constant → Constant
+  | .enum _ inner => inner
+  | other => other
+
 def castScalar (s : Scalar) (v : Constant) : Res :=
   match castTable s with
   | none => .error .notConst
   | some rows =>
     -- every scalar arm starts by replacing an enum operand by its underlying value
-    let v := match v with | .enum _ inner => inner | other => other
+    let v := stripEnum v
     match lookupArm rows v.kind with
     | some (rk, r) => applyCastRule r rk v
     | none => .error .notConst
